@@ -61,6 +61,9 @@ func vInstall(w *vk.World) {
 }
 
 func hostN(h string) uint64 {
+	if i := strings.LastIndex(h, "h"); i >= 0 {
+		h = h[i:]
+	}
 	x, err := strconv.Atoi(strings.TrimPrefix(h, "h"))
 	if err != nil {
 		return 999
@@ -286,6 +289,14 @@ func dvalGal(path string, b []byte) string {
 		}
 	case pathRecovery:
 		return "VUnit"
+	case pathResetupStatus:
+		if len(parts) > 1 {
+			var rs mysql.ResetupStatus
+			if json.Unmarshal(b, &rs) != nil {
+				return "(VOpaque 1)"
+			}
+			return "(VResetup " + vk.B(rs.Status) + " " + vk.Z(nsOf(rs.UpdateTime)) + ")"
+		}
 	case "optimization_nodes":
 		if len(parts) > 1 {
 			var st struct {
@@ -672,7 +683,9 @@ func cfgGal(c *config.Config) string {
 		"; c_priority_choice_max_lag := " + vk.Z(int64(c.PriorityChoiceMaxLag/time.Second)) +
 		"; c_wait_repl_start_timeout := " + d(c.WaitReplicationStartTimeout) + "; c_slave_catch_up_timeout := " + d(c.SlaveCatchUpTimeout) +
 		"; c_manager_switchover := " + vk.B(c.ManagerSwitchover) + "; c_manager_election_delay := " + d(c.ManagerElectionDelayAfterQuorumLoss) +
-		"; c_repl_mon := " + vk.B(c.ReplMon) + "; c_master_first_adjust := " + vk.B(c.MasterFirstAdjustSSOrder) + " |}"
+		"; c_repl_mon := " + vk.B(c.ReplMon) + "; c_master_first_adjust := " + vk.B(c.MasterFirstAdjustSSOrder) +
+		"; c_offline_enable_lag := " + vk.Z(int64(c.OfflineModeEnableLag/time.Second)) + "; c_offline_disable_lag := " + vk.Z(int64(c.OfflineModeDisableLag/time.Second)) +
+		"; c_offline_enable_interval := " + d(c.OfflineModeEnableInterval) + "; c_offline_max_pct := " + vk.Z(int64(c.OfflineModeMaxOfflinePct)) + " |}"
 }
 
 func (v *vApp) close() {
